@@ -118,7 +118,10 @@ func c05Loss(run *evid.Run) {
 					}
 					nent := n + 1
 					for mask := 0; mask < 1<<uint(nent); mask++ {
-						for _, cmd := range []string{"get", "gat"} {
+						for _, cmd := range []string{"get", "gat", "append", "prepend"} {
+							if (cmd == "append" || cmd == "prepend") && (n == 0 || shape == "after-shorter") {
+								continue
+							}
 							st := fakemc.NewStore("L1")
 							h := chunked.NewHandler(st.Pipe())
 							var full []fullValue
@@ -157,7 +160,21 @@ func c05Loss(run *evid.Run) {
 							desc := fmt.Sprintf("loss|%s|n=%d|%s|mask=%b|%s", shape, n, lenClassExact(kl, vl), mask, cmd)
 							announceCase(desc)
 							var obs wire.Result
-							if cmd == "get" {
+							if cmd == "append" || cmd == "prepend" {
+								// read-modify-write over a damaged key: whatever it answers, the key
+								// must afterwards read as a miss or as a complete value extended once
+								extra := makeValue(id, 9)
+								id++
+								handlerExec(h, wire.Cmd{Op: cmd, Key: key, Value: extra}, 0)
+								for _, fv := range append([]fullValue(nil), full...) {
+									if cmd == "append" {
+										full = append(full, fullValue{append(append([]byte(nil), fv.Value...), extra...), fv.Flags})
+									} else {
+										full = append(full, fullValue{append(append([]byte(nil), extra...), fv.Value...), fv.Flags})
+									}
+								}
+								obs = handlerExec(h, wire.Cmd{Op: "get", Keys: []string{key}, Opaque: 5}, 0)
+							} else if cmd == "get" {
 								obs = handlerExec(h, wire.Cmd{Op: "get", Keys: []string{key}, Opaque: 5}, 0)
 							} else {
 								obs = handlerExec(h, wire.Cmd{Op: "gat", Key: key, TTL: 500, Opaque: 5}, 0)
@@ -273,6 +290,9 @@ type c05Program struct {
 	Pre      int    // chunks of a pre-existing value (-1 = none)
 	ReaderGA bool   // reader uses GAT instead of Get
 	AOp      string // "" = set; "append" / "prepend": writer A extends the pre-existing value by NA bytes-class
+	// PreSameConn: the pre-existing value was written through writer A's own connection (a
+	// client overwriting its own key) instead of a connection that is gone
+	PreSameConn bool `json:",omitempty"`
 }
 
 func c05Interleave(run *evid.Run) {
@@ -315,6 +335,14 @@ func c05Interleave(run *evid.Run) {
 			plans = append(plans, plan{c05Program{NA: 0, NB: 1, Pre: 2, AOp: op}, 2, 1500, false})
 		}
 	}
+	// a client overwriting (or extending) the value it wrote itself through the same connection
+	plans = append(plans, plan{c05Program{NA: 2, NB: -1, Pre: 2, PreSameConn: true}, -1, 0, false})
+	plans = append(plans, plan{c05Program{NA: 1, NB: -1, Pre: 3, PreSameConn: true, ReaderGA: true}, -1, 0, false})
+	plans = append(plans, plan{c05Program{NA: 0, NB: -1, Pre: 2, PreSameConn: true, AOp: "append"}, -1, 0, false})
+	if run.Thorough() {
+		plans = append(plans, plan{c05Program{NA: 3, NB: -1, Pre: 3, PreSameConn: true}, -1, 0, false})
+		plans = append(plans, plan{c05Program{NA: 2, NB: 1, Pre: 3, PreSameConn: true}, 3, 20000, false})
+	}
 	allExhaustive := true
 	for pi, pl := range plans {
 		var ex *sched.Explorer
@@ -324,6 +352,9 @@ func c05Interleave(run *evid.Run) {
 			ex = sched.NewDFS(pl.bound, pl.maxRuns)
 		}
 		name := fmt.Sprintf("A=%s%d,B=%d,pre=%d,gat=%v", pl.prog.AOp, pl.prog.NA, pl.prog.NB, pl.prog.Pre, pl.prog.ReaderGA)
+		if pl.prog.PreSameConn {
+			name += ",pre-by-A"
+		}
 		for {
 			ch := ex.Next()
 			if ch == nil {
@@ -373,10 +404,12 @@ func c05RunSchedule(prog c05Program, ch *sched.Chooser) (string, map[string]inte
 		return fullValue{makeValue(id, l), 0xC0000000 | id}
 	}
 	if prog.Pre >= 0 {
-		h0 := chunked.NewHandler(st.Pipe())
 		v := mk(9, prog.Pre)
-		handlerExec(h0, wire.Cmd{Op: "set", Key: key, Value: v.Value, Flags: v.Flags}, 0)
-		h0.Close()
+		if !prog.PreSameConn {
+			h0 := chunked.NewHandler(st.Pipe())
+			handlerExec(h0, wire.Cmd{Op: "set", Key: key, Value: v.Value, Flags: v.Flags}, 0)
+			h0.Close()
+		}
 		full = append(full, v)
 	}
 	va, vb := mk(1, prog.NA), mk(2, maxInt(prog.NB, 0))
@@ -430,6 +463,9 @@ func c05RunSchedule(prog c05Program, ch *sched.Chooser) (string, map[string]inte
 			}
 			time.Sleep(50 * time.Microsecond)
 		}
+	}
+	if prog.Pre >= 0 && prog.PreSameConn {
+		handlerExec(hs[0], wire.Cmd{Op: "set", Key: key, Value: full[0].Value, Flags: full[0].Flags}, 0)
 	}
 	nthreads := 3
 	ctl := sched.NewController(nthreads, ch)
